@@ -12,6 +12,7 @@ package main
 // The guards of a block are the literals common to all its alternatives, the rest is reported as one OR{…} term.
 
 import (
+	"go/types"
 	"os"
 	"fmt"
 	"go/token"
@@ -74,6 +75,22 @@ func pcOperandKey(v ssa.Value) (string, bool) {
 		if x.Op == token.MUL {
 			return "", false // a load: its value depends on when it is executed
 		}
+	case *ssa.Call:
+		// len/cap of a slice or string value: the same number wherever it is computed
+		if bi, ok := x.Call.Value.(*ssa.Builtin); ok && (bi.Name() == "len" || bi.Name() == "cap") && len(x.Call.Args) == 1 {
+			switch x.Call.Args[0].Type().Underlying().(type) {
+			case *types.Slice, *types.Basic, *types.Array:
+				if k, ok := pcOperandKey(x.Call.Args[0]); ok {
+					return bi.Name() + "(" + k + ")", true
+				}
+			}
+		}
+	case *ssa.Convert:
+		if convPreserves(x) {
+			if _, _, isInt := intInfo(x.Type()); isInt {
+				return pcOperandKey(x.X)
+			}
+		}
 	}
 	return fmt.Sprintf("%p", v), true
 }
@@ -102,6 +119,14 @@ func (pi *pcInfo) condKey(v ssa.Value) (int, bool) {
 			op, x, y = token.LSS, y, x
 		case token.LEQ:
 			op, x, y, flip = token.LSS, y, x, !flip
+		}
+		// `0 < x` for non-negative x (unsigned, len, cap) is `x != 0`: one key with the equality test
+		if op == token.LSS {
+			if k, isC := constInt(x); isC && k == 0 {
+				if _, isConst := x.(*ssa.Const); isConst && sigBits(y, 0) < 64 {
+					op, flip = token.EQL, !flip
+				}
+			}
 		}
 		if op == token.EQL || op == token.LSS {
 			kx, okx := pcOperandKey(x)
